@@ -114,6 +114,91 @@ void wrapped(std::vector<L> const& lv, std::vector<R> const& rv)
         }
 }
 
+// ++ / -- on overflow_integer<T, Tag> (pre_to_assign: `x += 1` under the tag, converted back to T under the tag):
+// new value of the operand and the value the expression returns
+template<class Tag, class T>
+void wincdec(Rng& rng)
+{
+    std::string tag = TagN<Tag>::name();
+    using A = overflow_integer<T, Tag>;
+    using NL = std::numeric_limits<T>;
+    std::vector<T> lv;
+    for (I v : {I(0), I(1), I(-1), I(NL::max()), I(NL::max()) - 1, I(NL::lowest()), I(NL::lowest()) + 1, I(NL::max() / 2)})
+        if (v >= I(NL::lowest()) && v <= I(NL::max())) push_unique(lv, T(v));
+    for (T v : vals<T>(rng, 2 * scale_from_env(), 64)) push_unique(lv, v);
+    for (T l : lv) {
+#define WID(NAME, STMT) \
+    { \
+        printf(VH_TABLE " winc " VH_PATH " %s " NAME " %s ", tag.c_str(), tn<T>().c_str()); \
+        prv(l); \
+        fputs(" => ", stdout); \
+        int vh_rc = sigsetjmp(vh::jb, 1); \
+        if (vh_rc == 0) { \
+            vh::armed = 1; \
+            try { \
+                A c = _impl::from_rep<A>(l); \
+                A ret = (STMT); \
+                vh::armed = 0; \
+                prv(_impl::to_rep(c)); \
+                putchar('|'); \
+                prv(_impl::to_rep(ret)); \
+            } catch (std::overflow_error const& e) { \
+                vh::armed = 0; \
+                fputs(strstr(e.what(), "positive") ? "THROW+" : "THROW-", stdout); \
+            } \
+        } else { \
+            vh::armed = 0; \
+            vh::print_fail(vh_rc); \
+        } \
+        putchar('\n'); \
+    }
+        WID("pre+", ++c)
+        WID("pre-", --c)
+        WID("post+", c++)
+        WID("post-", c--)
+    }
+}
+
+// overflow_integer over a class-type representation that has a most negative number (rounding_integer<int>,
+// single-word wide_integer): the tests that guard lowest / -1, -lowest and lowest << n must still apply.
+// Lines of the `bin` / `neg` tables with the innermost built-in types.
+template<class Tag, class Rep, class T>
+void wclass(Rng& rng)
+{
+    std::string tag = TagN<Tag>::name();
+    using A = overflow_integer<Rep, Tag>;
+    using NL = std::numeric_limits<T>;
+    std::vector<T> lv;
+    for (I v : {I(0), I(1), I(-1), I(2), I(-2), I(NL::max()), I(NL::lowest()), I(NL::lowest()) + 1, I(NL::lowest() / 2), I(NL::max() / 2) + 1})
+        if (v >= I(NL::lowest()) && v <= I(NL::max())) push_unique(lv, T(v));
+    for (T v : vals<T>(rng, 2 * scale_from_env(), 64)) push_unique(lv, v);
+    auto inner = [](auto const& z) { return innermost(z); };
+    for (T l : lv) {
+        A a = _impl::from_rep<A>(_impl::from_rep<Rep>(l));
+        printf(VH_TABLE " neg " VH_PATH " %s %s ", tag.c_str(), tn<T>().c_str());
+        prv(l);
+        fputs(" => ", stdout);
+        VH_RUN(inner(-a), print_tv)
+        for (T r : lv) {
+            A b = _impl::from_rep<A>(_impl::from_rep<Rep>(r));
+#define WC(NAME, EXPR) \
+    { \
+        printf(VH_TABLE " bin " VH_PATH " %s " NAME " %s %s ", tag.c_str(), tn<T>().c_str(), tn<T>().c_str()); \
+        prv(l); \
+        putchar(' '); \
+        prv(r); \
+        fputs(" => ", stdout); \
+        VH_RUN(inner(EXPR), print_tv) \
+    }
+            if (r != 0) WC("div", a / b)
+            WC("add", a + b)
+            WC("sub", a - b)
+            WC("mul", a * b)
+            if (r >= 0 && I(r) <= 70) WC("shl", a << b)
+        }
+    }
+}
+
 // shifts through overflow_integer with the count itself an overflow_integer (wrapper shifted by wrapper):
 // counts around the widths and, for wide count types, values whose low 32 bits look negative
 template<class Tag, class L, class R>
